@@ -9,6 +9,11 @@
      c_file_ok json.Parse returned no error diagnostics
      c_everr   expr.Value(nil) returned error diagnostics (only if accepted)
      c_val     expr.Value(nil) canonicalised (only if accepted)
+     c_nf      the NFC normal form (hex) of every property name (hex) of the input
+               that is not already in NFC, computed by the harness with
+               golang.org/x/text/unicode/norm directly on the names as encoding/json
+               decodes them - not through hcl.  Property names are HCL strings
+               (Literal.value_of_nf): names with the same normal form are duplicates.
 
    check_json_cases : indices of the cases where the model (Scanner.jscan,
    Parser.jparse / jparse_file, Literal.value_of) disagrees with the observation.
@@ -26,7 +31,8 @@
                                  fixed in /repo 97334cf)
      5  rejects-valid-json-number-exponent
                                  Go rejects a JSON text one of whose numbers
-                                 big.ParseFloat refuses (exponent out of range);
+                                 big.ParseFloat refuses (exponent out of range)
+                                 with "Invalid JSON number" diagnostics ONLY;
                                  known finding of a pinned dependency
      6  literal-mapping-differs-from-reference
                                  both accept, but Go's Value(nil) is not the
@@ -56,8 +62,20 @@ Record jcase := mkCase {
   c_diags : list Z;
   c_file_ok : bool;
   c_everr : bool;
-  c_val : gval
+  c_val : gval;
+  c_nf : list (string * string)
 }.
+
+(* the normalisation of the case: the table on the names it lists, the identity elsewhere
+   (a name absent from the table is in NFC already) *)
+Fixpoint nf_tbl (t : list (list Z * list Z)) (k : list Z) : list Z :=
+  match t with
+  | [] => k
+  | (a, b) :: r => if zlist_eqb k a then b else nf_tbl r k
+  end.
+
+Definition case_nf (c : jcase) : list Z -> list Z :=
+  nf_tbl (map (fun p => (unhex (fst p), unhex (snd p))) (c_nf c)).
 
 Fixpoint lookup (k : list Z) (l : list (list Z * lvalue)) : option lvalue :=
   match l with
@@ -123,7 +141,7 @@ Definition check_json_case (c : jcase) : bool :=
          zlist_eqb ds (c_diags c)
          && Bool.eqb (accepted (jparse_file bs)) (c_file_ok c)
          && match ds with
-            | [] => match value_of v with
+            | [] => match value_of_nf (case_nf c) v with
                     | LError => c_everr c
                     | LOk l => negb (c_everr c) && gmatch (c_val c) l
                     end
@@ -140,15 +158,27 @@ Definition has_bad_exponent (bs : list Z) : bool :=
   existsb (fun t => jtype_eqb (tty t) TNumber && json_number_ok (tbytes t) && negb (big_parse_ok (tbytes t)))
           (jscan bs).
 
+(* Kind 5 is a KNOWN finding, so it must not absorb other rejections: a text that merely CONTAINS such a
+   number but is rejected for another reason stays kind 3.  Go's diagnostics must be "Invalid JSON number"
+   and nothing else, at most one per number big.ParseFloat refuses. *)
+Definition only_number_diags (c : jcase) : bool :=
+  match c_diags c with
+  | [] => false
+  | ds => forallb (fun d => d =? DInvalidNumber) ds
+          && (Z.of_nat (length ds) <=?
+              Z.of_nat (length (filter (fun t => jtype_eqb (tty t) TNumber && json_number_ok (tbytes t) && negb (big_parse_ok (tbytes t)))
+                                       (jscan (unhex (c_input c))))))
+  end.
+
 Definition strict_kind (c : jcase) : Z :=
   let bs := unhex (c_input c) in
   let go_ok := match c_diags c with [] => true | _ => false end in
   match json_text_dec bs, go_ok with
   | None, false => 0
   | None, true => if utf8_valid bs then 2 else 1
-  | Some _, false => if has_bad_exponent bs then 5 else 3
+  | Some _, false => if has_bad_exponent bs && only_number_diags c then 5 else 3
   | Some v, true =>
-      match value_of v with
+      match value_of_nf (case_nf c) v with
       | LError => if c_everr c then 0 else 6
       | LOk l => if negb (c_everr c) && gmatch (c_val c) l then 0 else 6
       end
